@@ -467,6 +467,7 @@ func c09Sequenced(s *sim.Sim, p *sim.Params) {
 		}))
 	}
 	order := s.Choose(sim.SWork, n)
+	rejected := make([]bool, n)
 	var expect c09outcome
 	decided := false
 	allVals := make([]interface{}, n)
@@ -475,7 +476,11 @@ func c09Sequenced(s *sim.Sim, p *sim.Params) {
 	for step := 0; step < n; step++ {
 		i := (order + step) % n
 		reject := s.Choose(sim.SWork, 3) == 0
+		if kind == "all" && s.Choose(sim.SWork, 3) == 0 {
+			reject = true // (several failing inputs are the interesting case for All)
+		}
 		val := fmt.Sprintf("w%d", i)
+		rejected[i] = reject
 		if reject {
 			futs[i].Reject(errors.New(val))
 		} else {
@@ -509,6 +514,42 @@ func c09Sequenced(s *sim.Sim, p *sim.Params) {
 	s.Quiesce(time.Second)
 	got1 := c09final(r)
 	sample = append(sample, fmt.Sprintf("result %v", got1))
+	if kind == "all" {
+		// All over the same inputs is a function of what the inputs settle to, not of when: a
+		// twin set of futures settles to the same outcomes in the opposite order
+		twins := make([]*interpreter.Future, n)
+		for i := range twins {
+			twins[i] = interpreter.NewFuture()
+		}
+		r2 := interpreter.All(twins...)
+		for step := n - 1; step >= 0; step-- {
+			i := (order + step) % n
+			if rejected[i] {
+				twins[i].Reject(errors.New(fmt.Sprintf("w%d", i)))
+			} else {
+				twins[i].Resolve(fmt.Sprintf("w%d", i))
+			}
+			s.Quiesce(0)
+		}
+		s.Quiesce(time.Second)
+		got2 := c09final(r2)
+		sample = append(sample, fmt.Sprintf("twin (opposite settle order) result %v", got2))
+		if got1 != got2 {
+			s.Fail("oracle", "combinator:all:depends-on-settle-order", fmt.Sprintf("All over inputs that settle to the same outcomes (rejected: %v) ended as %v when they settled in one order and as %v in the opposite order", rejected, got1, got2))
+		}
+		for i, tw := range twins {
+			// (All is documented to cancel the inputs that come after the failing one; the
+			// inputs in front of it are only waited for)
+			if rejected[i] {
+				break
+			}
+			want := c09outcome{"resolved", fmt.Sprintf("w%d", i)}
+			if o := c09final(tw); o != want {
+				s.Fail("oracle", "combinator:all:input-disturbed", fmt.Sprintf("input %d of All was settled as %v by its producer but ends as %v: All changed the outcome of a block whose result it was only asked to wait for", i, want, o))
+			}
+		}
+		s.Probe("all-twin-compared")
+	}
 	switch kind {
 	case "race":
 		if got1 != expect {
